@@ -1,6 +1,6 @@
 (* Model of the GATT/ATT server of bumble as executable Gallina.  No proofs here.
 
-   Code modelled (after the repairs fixes/D10a..D10d.patch):
+   Code modelled (after the repairs fixes/D10a..D10e.patch):
      bumble/device.py       Device.on_gatt_pdu           (parse, malformed-PDU branch)
      bumble/gatt_server.py  Server.register_eatt sink, on_invalid_gatt_pdu, on_gatt_pdu,
                             on_att_request, the twelve on_att_* handlers,
@@ -18,9 +18,13 @@
    The 30 s GATT_REQUEST_TIMEOUT of an indication is modelled as not firing.
 
    Abstractions:
-     - an attribute value is [a_value] (bytes); [a_rerr] <> 0 models an AttributeValue whose
-       read callback raises ATT_Error(a_rerr), [a_werr] <> 0 one whose write callback raises
-       ATT_Error(a_werr).  Callbacks raising anything else are outside the model.
+     - the behaviour of an attribute's value object is a quantified input: [a_value] (bytes)
+       is what a read returns and a write replaces; [a_rerr] > 0 models a read function that
+       raises ATT_Error(a_rerr), [a_rerr] < 0 one that raises any other exception (or is
+       missing: AttributeValue.read raises InvalidOperationError); [a_werr] likewise for
+       the write function.  [a_cccd] <> 0 marks the Client Characteristic Configuration
+       descriptor the server creates for characteristic [a_cccd]: its value is the bearer's
+       subscription state (read_cccd / write_cccd).
      - the bearer always has a connection (the `connection is not None` tests are true).
      - integers parsed from the PDU are 16-bit by construction; [le16] is struct.pack('<H')
        for 0 <= n < 65536 (handles, lengths <= 512, MTUs are in that range).
@@ -156,8 +160,9 @@ Record attr := mkAttr {
   a_perm : Z;           (* Attribute.permissions *)
   a_value : bytes;
   a_end : Z;            (* end_group_handle *)
-  a_rerr : Z;           (* <> 0: the read callback raises ATT_Error(a_rerr) *)
-  a_werr : Z            (* <> 0: the write callback raises ATT_Error(a_werr) *)
+  a_rerr : Z;           (* > 0: the read function raises ATT_Error(a_rerr); < 0: another exception *)
+  a_werr : Z;           (* > 0: the write function raises ATT_Error(a_werr); < 0: another exception *)
+  a_cccd : Z            (* <> 0: server-made CCCD of the characteristic with this handle *)
 }.
 
 Record bearer := mkBearer {
@@ -167,29 +172,37 @@ Record bearer := mkBearer {
   b_enh : bool          (* enhanced (EATT) bearer; not consulted by any modelled branch *)
 }.
 
-Inductive rres := RErr (code : Z) | ROk (v : bytes).
+Inductive rres := RErr (code : Z) | ROk (v : bytes) | RExc.
+
+(* Server.read_cccd: the stored CCCD value of the bearer, else 00 00 *)
+Definition cccd_value (subs : list (Z * bytes)) (ch : Z) : bytes :=
+  match assoc ch subs with Some v => v | None => [0; 0] end.
 
 (* Attribute.read_value: READ_REQUIRES_ENCRYPTION, then _AUTHENTICATION, then
    _AUTHORIZATION (always refused); READABLE is not consulted. *)
-Definition read_value (b : bearer) (a : attr) : rres :=
+Definition read_value (b : bearer) (subs : list (Z * bytes)) (a : attr) : rres :=
   if Z.testbit (a_perm a) PB_READ_ENC && negb (b_enc b) then RErr E_INSUFF_ENC
   else if Z.testbit (a_perm a) PB_READ_AUTHN && negb (b_auth b) then RErr E_INSUFF_AUTHN
   else if Z.testbit (a_perm a) PB_READ_AUTHZ then RErr E_INSUFF_AUTHZ
+  else if negb (a_cccd a =? 0) then ROk (cccd_value subs (a_cccd a))
   else if a_rerr a =? 0 then ROk (a_value a)
-  else RErr (a_rerr a).
+  else if 0 <? a_rerr a then RErr (a_rerr a)
+  else RExc.
 
-Inductive wres := WErr (code : Z) | WOk.
+Inductive wres := WErr (code : Z) | WOk | WExc.
 
 (* Attribute.write_value: the checks; WOk means the value is stored *)
 Definition write_check (b : bearer) (a : attr) : wres :=
   if Z.testbit (a_perm a) PB_WRITE_ENC && negb (b_enc b) then WErr E_INSUFF_ENC
   else if Z.testbit (a_perm a) PB_WRITE_AUTHN && negb (b_auth b) then WErr E_INSUFF_AUTHN
   else if Z.testbit (a_perm a) PB_WRITE_AUTHZ then WErr E_INSUFF_AUTHZ
+  else if negb (a_cccd a =? 0) then WOk
   else if a_werr a =? 0 then WOk
-  else WErr (a_werr a).
+  else if 0 <? a_werr a then WErr (a_werr a)
+  else WExc.
 
 Definition set_value (a : attr) (v : bytes) : attr :=
-  mkAttr (a_handle a) (a_type a) (a_perm a) v (a_end a) (a_rerr a) (a_werr a).
+  mkAttr (a_handle a) (a_type a) (a_perm a) v (a_end a) (a_rerr a) (a_werr a) (a_cccd a).
 
 (* Server.get_attribute: first attribute with that handle *)
 Fixpoint find_attr (h : Z) (db : list attr) : option attr :=
@@ -206,8 +219,8 @@ Fixpoint db_set (h : Z) (v : bytes) (db : list attr) : list attr :=
 
 (* What the reading handlers can observe of an attribute on a bearer. *)
 Record view := mkView { v_handle : Z; v_type : bytes; v_end : Z; v_read : rres }.
-Definition view_of (b : bearer) (a : attr) : view :=
-  mkView (a_handle a) (a_type a) (a_end a) (read_value b a).
+Definition view_of (b : bearer) (subs : list (Z * bytes)) (a : attr) : view :=
+  mkView (a_handle a) (a_type a) (a_end a) (read_value b subs a).
 
 Fixpoint find_view (h : Z) (vs : list view) : option view :=
   match vs with
@@ -311,6 +324,9 @@ Definition parse_pdu (op : Z) (ps : bytes) : parsed :=
 
 (* ------------------------------------------------------------------ responses *)
 Definition err_rsp (op h code : Z) : bytes := [OP_ERROR; op] ++ le16 h ++ [code].
+(* what _att_request_handler (D10e) sends when an exception other than ATT_Error escapes
+   a task-wrapped request handler *)
+Definition exc_rsp (op : Z) : bytes := err_rsp op 0 E_UNLIKELY.
 
 Definition in_range (s e : Z) (x : view) : bool := (s <=? v_handle x) && (v_handle x <=? e).
 
@@ -339,14 +355,19 @@ Definition h_find_info (mtu : Z) (vs : list view) (op s e : Z) : bytes :=
 
 (* --- Find By Type Value *)
 Definition value_matches (x : view) (v : bytes) : bool :=
-  match v_read x with ROk y => bytes_eqb y v | RErr _ => false end.
+  match v_read x with ROk y => bytes_eqb y v | _ => false end.
+Definition read_raises (x : view) : bool :=
+  match v_read x with RExc => true | _ => false end.
 
-Fixpoint fbtv_collect (s e : Z) (t v : bytes) (space : Z) (vs : list view) : list view :=
+(* None: a read function raised something other than ATT_Error (the value of every attribute
+   in range with the requested type is read, whatever space is left) *)
+Fixpoint fbtv_collect (s e : Z) (t v : bytes) (space : Z) (vs : list view) : option (list view) :=
   match vs with
-  | [] => []
+  | [] => Some []
   | x :: vs' =>
-      if in_range s e x && uuid_eqb (v_type x) t && value_matches x v && (4 <=? space)
-      then x :: fbtv_collect s e t v (space - 4) vs'
+      if in_range s e x && uuid_eqb (v_type x) t && read_raises x then None
+      else if in_range s e x && uuid_eqb (v_type x) t && value_matches x v && (4 <=? space)
+      then option_map (cons x) (fbtv_collect s e t v (space - 4) vs')
       else fbtv_collect s e t v space vs'
   end.
 
@@ -358,32 +379,36 @@ Definition fbtv_entry (x : view) : bytes :=
 
 Definition h_fbtv (mtu : Z) (vs : list view) (op s e : Z) (t v : bytes) : bytes :=
   match fbtv_collect s e t v (mtu - 2) vs with
-  | [] => err_rsp op s E_NOT_FOUND
-  | r => [OP_FBTV_RSP] ++ flat_map fbtv_entry r
+  | None => exc_rsp op
+  | Some [] => err_rsp op s E_NOT_FOUND
+  | Some r => [OP_FBTV_RSP] ++ flat_map fbtv_entry r
   end.
 
 (* --- Read By Type / Read By Group Type: common loop.
    hdr = bytes in front of each value (2 / 4), cap = min(mtu - 4, 253) / min(mtu - 6, 251).
    Returns the entries and, when the very first attribute cannot be read, its handle and
-   error code. *)
+   error code; None when a read function raised something other than ATT_Error. *)
 Fixpoint rb_collect (hdr cap space : Z) (flen : option Z) (l : list view)
-  : list (view * bytes) * option (Z * Z) :=
+  : option (list (view * bytes) * option (Z * Z)) :=
   match l with
-  | [] => ([], None)
+  | [] => Some ([], None)
   | x :: l' =>
-      if space =? 0 then ([], None)
+      if space =? 0 then Some ([], None)
       else
         match v_read x with
+        | RExc => None
         | RErr c =>
-            ([], match flen with None => Some (v_handle x, c) | Some _ => None end)
+            Some ([], match flen with None => Some (v_handle x, c) | Some _ => None end)
         | ROk v =>
             let v' := take cap v in
             let same := match flen with None => true | Some n => len v' =? n end in
-            if negb same then ([], None)
-            else if space <? hdr + len v' then ([], None)
+            if negb same then Some ([], None)
+            else if space <? hdr + len v' then Some ([], None)
             else
-              let '(r, e) := rb_collect hdr cap (space - (hdr + len v')) (Some (len v')) l' in
-              ((x, v') :: r, e)
+              match rb_collect hdr cap (space - (hdr + len v')) (Some (len v')) l' with
+              | None => None
+              | Some (r, e) => Some ((x, v') :: r, e)
+              end
         end
   end.
 
@@ -396,9 +421,10 @@ Definition h_rbt (mtu : Z) (vs : list view) (op s e : Z) (t : bytes) : bytes :=
   if (s =? 0) || (e <? s) then err_rsp op s E_INVALID_HANDLE
   else
     match rb_collect 2 (Z.min (mtu - 4) 253) (mtu - 2) None (filter (type_in_range t s e) vs) with
-    | ([], Some (h, c)) => err_rsp op h c
-    | ([], None) => err_rsp op s E_NOT_FOUND
-    | ((x, v0) :: r, _) => [OP_RBT_RSP; 2 + len v0] ++ flat_map rbt_entry ((x, v0) :: r)
+    | None => exc_rsp op
+    | Some ([], Some (h, c)) => err_rsp op h c
+    | Some ([], None) => err_rsp op s E_NOT_FOUND
+    | Some ((x, v0) :: r, _) => [OP_RBT_RSP; 2 + len v0] ++ flat_map rbt_entry ((x, v0) :: r)
     end.
 
 Definition rbgt_entry (p : view * bytes) : bytes :=
@@ -409,9 +435,10 @@ Definition h_rbgt (mtu : Z) (vs : list view) (op s e : Z) (t : bytes) : bytes :=
   then err_rsp op s E_UNSUPPORTED_GROUP
   else
     match rb_collect 4 (Z.min (mtu - 6) 251) (mtu - 2) None (filter (type_in_range t s e) vs) with
-    | ([], Some (h, c)) => err_rsp op h c
-    | ([], None) => err_rsp op s E_NOT_FOUND
-    | ((x, v0) :: r, _) => [OP_RBGT_RSP; 4 + len v0] ++ flat_map rbgt_entry ((x, v0) :: r)
+    | None => exc_rsp op
+    | Some ([], Some (h, c)) => err_rsp op h c
+    | Some ([], None) => err_rsp op s E_NOT_FOUND
+    | Some ((x, v0) :: r, _) => [OP_RBGT_RSP; 4 + len v0] ++ flat_map rbgt_entry ((x, v0) :: r)
     end.
 
 (* --- Read / Read Blob *)
@@ -420,6 +447,7 @@ Definition h_read (mtu : Z) (vs : list view) (op h : Z) : bytes :=
   | None => err_rsp op h E_INVALID_HANDLE
   | Some x =>
       match v_read x with
+      | RExc => exc_rsp op
       | RErr c => err_rsp op h c
       | ROk v => [OP_READ_RSP] ++ take (Z.min (mtu - 1) (len v)) v
       end
@@ -430,6 +458,7 @@ Definition h_blob (mtu : Z) (vs : list view) (op h off : Z) : bytes :=
   | None => err_rsp op h E_INVALID_HANDLE
   | Some x =>
       match v_read x with
+      | RExc => exc_rsp op
       | RErr c => err_rsp op h c
       | ROk v =>
           if len v <? off then err_rsp op h E_INVALID_OFFSET
@@ -438,24 +467,30 @@ Definition h_blob (mtu : Z) (vs : list view) (op h off : Z) : bytes :=
       end
   end.
 
-(* --- Read Multiple (after D10a): inr (h, c) = Error Response for handle h *)
-Fixpoint rm_collect (mtu : Z) (vs : list view) (space : Z) (hs : list Z)
-  : list bytes + Z * Z :=
+(* --- Read Multiple (after D10a): MErr h c = Error Response for handle h, MExc = a read
+   function raised something other than ATT_Error *)
+Inductive mres (A : Type) := MOk (r : list A) | MErr (h c : Z) | MExc.
+Arguments MOk {A} r.
+Arguments MErr {A} h c.
+Arguments MExc {A}.
+
+Fixpoint rm_collect (mtu : Z) (vs : list view) (space : Z) (hs : list Z) : mres bytes :=
   match hs with
-  | [] => inl []
+  | [] => MOk []
   | h :: hs' =>
       match find_view h vs with
-      | None => inr (h, E_NOT_FOUND)
+      | None => MErr h E_NOT_FOUND
       | Some x =>
           match v_read x with
-          | RErr c => inr (h, c)
+          | RExc => MExc
+          | RErr c => MErr h c
           | ROk v =>
               let v' := take (Z.min (mtu - 1) 251) v in
-              if space <? len v' then inl []
+              if space <? len v' then MOk []
               else
                 match rm_collect mtu vs (space - len v') hs' with
-                | inl r => inl (v' :: r)
-                | inr e => inr e
+                | MOk r => MOk (v' :: r)
+                | e => e
                 end
           end
       end
@@ -463,29 +498,30 @@ Fixpoint rm_collect (mtu : Z) (vs : list view) (space : Z) (hs : list Z)
 
 Definition h_rm (mtu : Z) (vs : list view) (op : Z) (hs : list Z) : bytes :=
   match rm_collect mtu vs (mtu - 1) hs with
-  | inl r => [OP_RM_RSP] ++ concat r
-  | inr (h, c) => err_rsp op h c
+  | MOk r => [OP_RM_RSP] ++ concat r
+  | MErr h c => err_rsp op h c
+  | MExc => exc_rsp op
   end.
 
 (* --- Read Multiple Variable (after D10a and D10b) *)
-Fixpoint rmv_collect (vs : list view) (space : Z) (hs : list Z)
-  : list (Z * bytes) + Z * Z :=
+Fixpoint rmv_collect (vs : list view) (space : Z) (hs : list Z) : mres (Z * bytes) :=
   match hs with
-  | [] => inl []
+  | [] => MOk []
   | h :: hs' =>
       match find_view h vs with
-      | None => inr (h, E_NOT_FOUND)
+      | None => MErr h E_NOT_FOUND
       | Some x =>
           match v_read x with
-          | RErr c => inr (h, c)
+          | RExc => MExc
+          | RErr c => MErr h c
           | ROk v =>
               let v' := take (Z.min (space - 2) 251) v in
               let space' := space - (2 + len v') in
-              if space' <? 2 then inl [(len v, v')]
+              if space' <? 2 then MOk [(len v, v')]
               else
                 match rmv_collect vs space' hs' with
-                | inl r => inl ((len v, v') :: r)
-                | inr e => inr e
+                | MOk r => MOk ((len v, v') :: r)
+                | e => e
                 end
           end
       end
@@ -495,29 +531,47 @@ Definition rmv_entry (p : Z * bytes) : bytes := le16 (fst p) ++ snd p.
 
 Definition h_rmv (mtu : Z) (vs : list view) (op : Z) (hs : list Z) : bytes :=
   match rmv_collect vs (mtu - 1) hs with
-  | inl r => [OP_RMV_RSP] ++ flat_map rmv_entry r
-  | inr (h, c) => err_rsp op h c
+  | MOk r => [OP_RMV_RSP] ++ flat_map rmv_entry r
+  | MErr h c => err_rsp op h c
+  | MExc => exc_rsp op
   end.
 
-(* --- Write Request / Write Command: new database and PDUs sent *)
-Definition h_write (b : bearer) (db : list attr) (op h : Z) (v : bytes) : list attr * bytes :=
+(* write_cccd *)
+Fixpoint subs_set (h : Z) (v : bytes) (subs : list (Z * bytes)) : list (Z * bytes) :=
+  match subs with
+  | [] => [(h, v)]
+  | (k, w) :: subs' => if k =? h then (h, v) :: subs' else (k, w) :: subs_set h v subs'
+  end.
+
+(* an accepted write: a CCCD stores a 2-byte value in the bearer's subscription state (any
+   other length is accepted and ignored), any other attribute takes the value *)
+Definition store (db : list attr) (subs : list (Z * bytes)) (a : attr) (h : Z) (v : bytes)
+  : list attr * list (Z * bytes) :=
+  if negb (a_cccd a =? 0) then (db, if len v =? 2 then subs_set (a_cccd a) v subs else subs)
+  else (db_set h v db, subs).
+
+(* --- Write Request / Write Command: new database, new subscription state, PDU sent *)
+Definition h_write (b : bearer) (db : list attr) (subs : list (Z * bytes)) (op h : Z) (v : bytes)
+  : list attr * list (Z * bytes) * bytes :=
   match find_attr h db with
-  | None => (db, err_rsp op h E_INVALID_HANDLE)
+  | None => (db, subs, err_rsp op h E_INVALID_HANDLE)
   | Some a =>
-      if MAX_VALUE_SIZE <? len v then (db, err_rsp op h E_INVALID_ATTR_LEN)
+      if MAX_VALUE_SIZE <? len v then (db, subs, err_rsp op h E_INVALID_ATTR_LEN)
       else
         match write_check b a with
-        | WErr c => (db, err_rsp op h c)
-        | WOk => (db_set h v db, [OP_WRITE_RSP])
+        | WErr c => (db, subs, err_rsp op h c)
+        | WExc => (db, subs, exc_rsp op)
+        | WOk => (store db subs a h v, [OP_WRITE_RSP])
         end
   end.
 
-Definition h_write_cmd (b : bearer) (db : list attr) (h : Z) (v : bytes) : list attr :=
+Definition h_write_cmd (b : bearer) (db : list attr) (subs : list (Z * bytes)) (h : Z) (v : bytes)
+  : list attr * list (Z * bytes) :=
   match find_attr h db with
-  | None => db
+  | None => (db, subs)
   | Some a =>
-      if MAX_VALUE_SIZE <? len v then db
-      else match write_check b a with WErr _ => db | WOk => db_set h v db end
+      if MAX_VALUE_SIZE <? len v then (db, subs)
+      else match write_check b a with WOk => store db subs a h v | _ => (db, subs) end
   end.
 
 (* ------------------------------------------------------------------ server state *)
@@ -532,6 +586,8 @@ Record srv := mkSrv {
 
 Definition set_db (st : srv) (db : list attr) : srv :=
   mkSrv db (s_b st) (s_max_mtu st) (s_subs st) (s_pending st) (s_waiting st).
+Definition set_dbs (st : srv) (ds : list attr * list (Z * bytes)) : srv :=
+  mkSrv (fst ds) (s_b st) (s_max_mtu st) (snd ds) (s_pending st) (s_waiting st).
 Definition set_mtu (st : srv) (m : Z) : srv :=
   mkSrv (s_db st) (mkBearer m (b_enc (s_b st)) (b_auth (s_b st)) (b_enh (s_b st)))
         (s_max_mtu st) (s_subs st) (s_pending st) (s_waiting st).
@@ -540,7 +596,7 @@ Definition set_ind (st : srv) (p : bool) (w : list bytes) : srv :=
 Definition set_subs (st : srv) (subs : list (Z * bytes)) : srv :=
   mkSrv (s_db st) (s_b st) (s_max_mtu st) subs (s_pending st) (s_waiting st).
 
-Definition views (st : srv) : list view := map (view_of (s_b st)) (s_db st).
+Definition views (st : srv) : list view := map (view_of (s_b st) (s_subs st)) (s_db st).
 Definition mtu_of (st : srv) : Z := b_mtu (s_b st).
 
 (* on_att_exchange_mtu_request: response first, then the MTU update *)
@@ -573,8 +629,9 @@ Definition handle (st : srv) (op : Z) (r : req) : option (srv * list bytes) :=
   | RRm hs => Some (st, [h_rm mtu vs op hs])
   | RRbgt s e t => Some (st, [h_rbgt mtu vs op s e t])
   | RRmv hs => Some (st, [h_rmv mtu vs op hs])
-  | RWrite h v => let '(db, p) := h_write (s_b st) (s_db st) op h v in Some (set_db st db, [p])
-  | RWriteCmd h v => Some (set_db st (h_write_cmd (s_b st) (s_db st) h v), [])
+  | RWrite h v =>
+      let '(ds, p) := h_write (s_b st) (s_db st) (s_subs st) op h v in Some (set_dbs st ds, [p])
+  | RWriteCmd h v => Some (set_dbs st (h_write_cmd (s_b st) (s_db st) (s_subs st) h v), [])
   | RConfirm => Some (h_confirm st)
   | ROther => None
   end.
@@ -605,7 +662,7 @@ Definition cccd_allows (bit : Z) (subs : list (Z * bytes)) (h : Z) : bool :=
 Definition server_value (st : srv) (a : attr) (v : option bytes) : option bytes :=
   match v with
   | Some x => Some x
-  | None => match read_value (s_b st) a with ROk x => Some x | RErr _ => None end
+  | None => match read_value (s_b st) (s_subs st) a with ROk x => Some x | _ => None end
   end.
 
 Definition hv_pdu (op mtu h : Z) (x : bytes) : bytes := [op] ++ le16 h ++ take (mtu - 3) x.
@@ -639,19 +696,11 @@ Definition indicate (st : srv) (h : Z) (v : option bytes) (force : bool) : srv *
       else (st, [])
   end.
 
-(* write_cccd *)
-Fixpoint subs_set (h : Z) (v : bytes) (subs : list (Z * bytes)) : list (Z * bytes) :=
-  match subs with
-  | [] => [(h, v)]
-  | (k, w) :: subs' => if k =? h then (h, v) :: subs' else (k, w) :: subs_set h v subs'
-  end.
-
 Inductive op :=
 | Rx (opc : Z) (ps : bytes)          (* a PDU from the peer *)
 | RxConfirm2                         (* two confirmations processed back to back *)
 | Notify (h : Z) (v : option bytes) (force : bool)
-| Indicate (h : Z) (v : option bytes) (force : bool)
-| SetCccd (h : Z) (v : bytes).       (* effect of a write to the CCCD of characteristic h *)
+| Indicate (h : Z) (v : option bytes) (force : bool).
 
 Definition step (st : srv) (o : op) : option (srv * list bytes) :=
   match o with
@@ -659,7 +708,6 @@ Definition step (st : srv) (o : op) : option (srv * list bytes) :=
   | RxConfirm2 => Some (h_confirm st)      (* the second one finds the future done: ignored *)
   | Notify h v f => Some (notify st h v f)
   | Indicate h v f => Some (indicate st h v f)
-  | SetCccd h v => Some (if len v =? 2 then set_subs st (subs_set h v (s_subs st)) else st, [])
   end.
 
 (* Run a history; outputs per op, each tagged with the ATT_MTU in force before the op. *)
@@ -726,22 +774,25 @@ Definition link_ok_read (b : bearer) (a : attr) : bool :=
   negb (Z.testbit (a_perm a) PB_READ_ENC && negb (b_enc b)) &&
   negb (Z.testbit (a_perm a) PB_READ_AUTHN && negb (b_auth b)) &&
   negb (Z.testbit (a_perm a) PB_READ_AUTHZ).
+(* the value object itself serves the access (a server-made CCCD always does) *)
+Definition rd_ok (a : attr) : bool := negb (a_cccd a =? 0) || (a_rerr a =? 0).
+Definition wr_ok (a : attr) : bool := negb (a_cccd a =? 0) || (a_werr a =? 0).
 Definition may_read (b : bearer) (a : attr) : bool :=
-  Z.testbit (a_perm a) PB_READABLE && link_ok_read b a && (a_rerr a =? 0).
+  Z.testbit (a_perm a) PB_READABLE && link_ok_read b a && rd_ok a.
 
 Definition link_ok_write (b : bearer) (a : attr) : bool :=
   negb (Z.testbit (a_perm a) PB_WRITE_ENC && negb (b_enc b)) &&
   negb (Z.testbit (a_perm a) PB_WRITE_AUTHN && negb (b_auth b)) &&
   negb (Z.testbit (a_perm a) PB_WRITE_AUTHZ).
 Definition may_write (b : bearer) (a : attr) : bool :=
-  Z.testbit (a_perm a) PB_WRITEABLE && link_ok_write b a && (a_werr a =? 0).
+  Z.testbit (a_perm a) PB_WRITEABLE && link_ok_write b a && wr_ok a.
 
 (* Known finding D11a: the class of attributes on which the implementation deviates --
    not READABLE (WRITEABLE) but served because no link requirement refuses the access. *)
 Definition d11a_read_witness (b : bearer) (a : attr) : bool :=
-  negb (Z.testbit (a_perm a) PB_READABLE) && link_ok_read b a && (a_rerr a =? 0).
+  negb (Z.testbit (a_perm a) PB_READABLE) && link_ok_read b a && rd_ok a.
 Definition d11a_write_witness (b : bearer) (a : attr) : bool :=
-  negb (Z.testbit (a_perm a) PB_WRITEABLE) && link_ok_write b a && (a_werr a =? 0).
+  negb (Z.testbit (a_perm a) PB_WRITEABLE) && link_ok_write b a && wr_ok a.
 Definition d11a_free_read (b : bearer) (db : list attr) : bool :=
   forallb (fun a => negb (d11a_read_witness b a)) db.
 Definition d11a_free_write (b : bearer) (db : list attr) : bool :=
@@ -751,6 +802,7 @@ Definition d11a_free_write (b : bearer) (db : list attr) : bool :=
 Definition attr_sim (b : bearer) (a1 a2 : attr) : Prop :=
   a_handle a1 = a_handle a2 /\ a_type a1 = a_type a2 /\ a_perm a1 = a_perm a2 /\
   a_end a1 = a_end a2 /\ a_rerr a1 = a_rerr a2 /\ a_werr a1 = a_werr a2 /\
+  a_cccd a1 = a_cccd a2 /\
   (may_read b a1 = true -> a_value a1 = a_value a2).
 
 (* ------------------------------------------------------------------ tie to the source *)
@@ -780,6 +832,9 @@ Definition tables_match : bool :=
   (* every awaited read_value / write_value of a task-wrapped handler is inside a try that
      catches ATT_Error; malformed requests and handler-less requests are answered *)
   && forallb (fun x => snd x) g_guarded
+  (* an exception other than ATT_Error escaping a task-wrapped handler is answered (request
+     handlers, D10e) or swallowed (Write Command) *)
+  && forallb (fun x => snd x) g_exc_guarded
   && g_has_generic_request_handler && g_has_invalid_pdu_handler
   (* opcodes used by the model *)
   && list_eqb Z.eqb
